@@ -16,7 +16,7 @@ git -C /repo worktree add -q --detach $WT HEAD || exit 9
 DEMO=$(ls $SRC | grep -E '^(demo|test_demo).*\.py$' | head -1)
 cp $SRC/$DEMO $WT/$DEMO
 for extra in $SRC/*.py; do [ "$extra" != "$SRC/$DEMO" ] && cp $extra $WT/ ; done
-cd $WT
+mkdir -p $WT/_scratch; cd $WT
 export PYTHONPATH=$WT/src TF_CPP_MIN_LOG_LEVEL=3
 rundemo() {
   # demos hard-code /tmp/wt-<PROP>; run them from the confirm worktree with paths rewritten
